@@ -22,13 +22,15 @@ import (
 // answered {ok, 503, 404} (an exhaustive product); after each refresh every user is asked about.
 // Oracle: an answer given without an error is the directory's own (transitive) membership answer — a
 // refresh during which a nested listing failed must not leave a partial member set behind as if it
-// were the whole group.
+// were the whole group. Two more directory shapes (every listing succeeding) have a group reachable along
+// two paths of different length, one of which reaches it exactly at the depth limit of the walk.
 
 type nestedDir struct {
 	x        *explore.Exec
 	members  map[string][][2]string // group -> (email, type)
 	requests []string
 	round    int
+	alwaysOK bool // every listing succeeds (the shape of the directory is what is explored)
 }
 
 func (d *nestedDir) isMember(group, user string, depth int) bool {
@@ -67,7 +69,10 @@ func (d *nestedDir) RoundTrip(r *http.Request) (*http.Response, error) {
 	group, _ := url.PathUnescape(parts[gi+1])
 	switch parts[gi+2] {
 	case "members":
-		out := []string{"ok", "503", "404"}[d.x.Choose(fmt.Sprintf("round-%d-listing-of-%s", d.round, group), 3)]
+		out := "ok"
+		if !d.alwaysOK {
+			out = []string{"ok", "503", "404"}[d.x.Choose(fmt.Sprintf("round-%d-listing-of-%s", d.round, group), 3)]
+		}
 		d.requests = append(d.requests, fmt.Sprintf("round %d: list %s -> %s", d.round, group, out))
 		switch out {
 		case "503":
@@ -93,6 +98,7 @@ func c17Nested(c *fw.Ctx) {
 	top := "staff@corp.test"
 	users := []string{"u1@corp.test", "u2@corp.test", "u3@corp.test", "u4@corp.test", "outsider@corp.test"}
 	drive(c, "google-admin/nested-groups", 0, func(x *explore.Exec, owned bool) {
+		shape := x.Choose("directory-shape", 3)
 		d := &nestedDir{x: x, members: map[string][][2]string{
 			top:                {{"u1@corp.test", "USER"}, {"eng@corp.test", "GROUP"}, {"ops@corp.test", "GROUP"}},
 			"eng@corp.test":    {{"u2@corp.test", "USER"}, {"eng-eu@corp.test", "GROUP"}},
@@ -100,6 +106,25 @@ func c17Nested(c *fw.Ctx) {
 			"eng-eu@corp.test": {{"u4@corp.test", "USER"}},
 			"unused@corp.test": {{"outsider@corp.test", "USER"}},
 		}}
+		if shape > 0 {
+			// a group reachable along two paths of different length: directly (so that its own sub-group is within
+			// the depth the walk expands) and through a chain that reaches it exactly at the depth limit; every
+			// user is within reach of the short path. Listed chain first, or direct reference first.
+			d.alwaysOK = true
+			long, direct := [2]string{"chain1@corp.test", "GROUP"}, [2]string{"eng@corp.test", "GROUP"}
+			first, second := long, direct
+			if shape == 2 {
+				first, second = direct, long
+			}
+			d.members = map[string][][2]string{
+				top:                {{"u1@corp.test", "USER"}, first, second},
+				"chain1@corp.test": {{"chain2@corp.test", "GROUP"}},
+				"chain2@corp.test": {{"chain3@corp.test", "GROUP"}},
+				"chain3@corp.test": {{"u3@corp.test", "USER"}, {"eng@corp.test", "GROUP"}},
+				"eng@corp.test":    {{"u2@corp.test", "USER"}, {"eng-eu@corp.test", "GROUP"}},
+				"eng-eu@corp.test": {{"u4@corp.test", "USER"}},
+			}
+		}
 		var trace []string
 		type wrong struct{ user, what string }
 		var wrongs []wrong
@@ -147,7 +172,7 @@ func c17Nested(c *fw.Ctx) {
 		if !owned {
 			return
 		}
-		c.Res.Outcome("nested|" + strings.Join(trace, "|"))
+		c.Res.Outcome(fmt.Sprintf("nested|shape=%d|", shape) + strings.Join(trace, "|"))
 		c.Res.Validated++
 		if cachedAtEnd {
 			c.Res.Count("positive_nested_member_sets_cached", 1)
